@@ -26,7 +26,7 @@ const STD: &[(&str, usize, usize)] = &[
 ];
 
 pub fn preamble() -> String {
-    let mut s = String::from("include \"stdgates.inc\";\nqubit q; qubit[4] r; int c; const int k = 1; bit[4] cb; duration du = 10ns;\n");
+    let mut s = String::from("include \"stdgates.inc\";\nqubit q; qubit[4] r; int c; const int k = 1; bit[4] cb; duration du = 10ns;\nlet hq = $5; let ar = r;\n");
     for np in 0..=4usize {
         for nq in 1..=4usize {
             let ps: Vec<String> = (0..np).map(|i| format!("p{i}")).collect();
@@ -49,7 +49,7 @@ struct Site {
 
 fn operand(rng: &mut Rng, bad_bias: u64) -> (String, &'static str) {
     // (text, code)
-    let good: &[(&str, &str)] = &[("q", "iq"), ("r", "ia"), ("r[1]", "xa"), ("$2", "hw"), ("r[0]", "xa"), ("$0", "hw")];
+    let good: &[(&str, &str)] = &[("q", "iq"), ("r", "ia"), ("r[1]", "xa"), ("$2", "hw"), ("r[0]", "xa"), ("$0", "hw"), ("hq", "ih"), ("ar", "ia"), ("ar[2]", "xa")];
     let bad: &[(&str, &str)] = &[("c", "ic"), ("k", "ik"), ("zz", "iu"), ("q[0]", "xq"), ("cb[1]", "xc"), ("zz[0]", "xu"), ("g0_1", "ig"), ("f0", "id"), ("c[0]", "xc")];
     if rng.below(100) < bad_bias {
         let (t, c) = bad[rng.below(bad.len() as u64) as usize];
